@@ -2,7 +2,8 @@
 import ast
 
 from sa.effects import Effects, is_copier
-from sa.flow import Provenance
+from sa.flow import GuardMap, Provenance
+from sa import guards as G
 from sa.repo import AnchorError, call_name, calls_in, dotted, norm, walk_no_nested
 
 MOD = "annet.annlib.jsontools"
@@ -180,6 +181,7 @@ def run(c):
     r5(c)
     r1b(c)
     r6(c)
+    r7(c)
 
 
 def none_sentinel_sites(fn):
@@ -326,3 +328,53 @@ def r6(c):
                         eqs.append(cm_)
             c.check("C13.R6", not eqs, repo.loc(am, x), f"{q}/make_patch-unconditional", f"make_patch({a}, {b}) is skipped when `{norm(eqs[0]) if eqs else ''}`: documents that differ only in "
                     "scalar types compare equal in Python, so no patch is produced although the JSON differs", key_text="py-equality")
+
+
+def r7(c):
+    repo = c.repo
+    c.rule("C13.R7", "applying a fragment never destroys what the ACL does not name: (a) _ensure_pointer_exists creates an empty object only where the parent member is missing or "
+                     "null — an existing array or scalar on the way is left alone (replacing `PORTS: [...]` by `{'0': ...}` loses every other member of its items); (b) the "
+                     "delete-what-the-fragment-lacks step of apply_json_fragment removes object members only: every deletion there is under isinstance(<parent>, dict) — array "
+                     "elements addressed by position shift when their predecessors are deleted in the same pass, so a second application deletes more (not idempotent)")
+    m = repo.module(MOD)
+    fn = repo.func(MOD, "_ensure_pointer_exists")
+    c.count("functions", 2)
+    gm = GuardMap(fn)
+    stores = [n for n in walk_no_nested(fn) if isinstance(n, ast.Assign) and isinstance(n.targets[0], ast.Subscript) and isinstance(n.value, (ast.Dict, ast.Call))
+              and (isinstance(n.value, ast.Dict) and not n.value.keys or isinstance(n.value, ast.Call) and call_name(n.value) in ("dict", "odict", "OrderedDict") and not n.value.args)]
+    if not stores:
+        raise AnchorError("_ensure_pointer_exists: creation of the empty object not found")
+    for st in stores:
+        D, K = norm(st.targets[0].value), norm(st.targets[0].slice)
+
+        def ren(s_):
+            t = s_.replace(" ", "").replace('"', "'")
+            if t in (f"{K}in{D}", f"{K}in{D}.keys()"):
+                return "present"
+            if t in (f"{D}[{K}]isNone", f"{D}.get({K})isNone", f"{D}.get({K},None)isNone"):
+                return "null_or_absent"
+            if t in (f"{D}[{K}]isnotNone", f"{D}.get({K})isnotNone"):
+                return "has_value"
+            return s_
+        f = gm.formula(st, G.GuardEnv(rename=ren), alias=True)
+        # under `present` the only admissible reason is a null value
+        ok = G.implies(f, G.Or(G.Not(G.Atom("present")), G.Atom("null_or_absent"), G.Not(G.Atom("has_value")))) and \
+            (("present" in G.atoms(f)) or ("null_or_absent" in G.atoms(f)) or ("has_value" in G.atoms(f)))
+        c.check("C13.R7", ok, repo.loc(m, st), "_ensure_pointer_exists/create-only-if-missing-or-null", f"`{norm(st)}` runs under {G.show(f)}, which is not `member missing or null`: an existing array "
+                "or scalar that lies on the pointer's way is replaced by an empty object and everything it held outside the ACL is lost", key_text="create-guard")
+    af = repo.func(MOD, "apply_json_fragment")
+    gma = GuardMap(af)
+    dels = []
+    for n in walk_no_nested(af):
+        if isinstance(n, ast.Delete) and any(isinstance(t, ast.Subscript) for t in n.targets):
+            dels.append((n, n.targets[0].value))
+        elif isinstance(n, ast.Call) and isinstance(n.func, ast.Attribute) and n.func.attr in ("pop", "remove", "popitem", "clear") and gma.in_loop(n):
+            dels.append((n, n.func.value))
+    if not dels:
+        raise AnchorError("apply_json_fragment: the deletion of members absent from the fragment not found")
+    for n, recv in dels:
+        R = norm(recv)
+        f = gma.formula(n, G.GuardEnv(rename=lambda s_, R=R: "is_object" if s_.replace(" ", "") in (f"isinstance({R},dict)", f"isinstance({R},(dict,odict))", f"isinstance({R},Mapping)") else s_))
+        c.check("C13.R7", G.implies(f, G.Atom("is_object")), repo.loc(m, n), "apply_json_fragment/delete-object-members-only", f"`{norm(n)[:60]}` deletes from `{R}` under {G.show(f)}, "
+                "which does not imply that it is an object: array items are addressed by position, deleting them one by one in pointer order shifts the rest, and applying the "
+                "same fragment again removes further items", key_text="delete-non-object")
